@@ -52,3 +52,116 @@ theorem year_last (y : Int) : yearDay y 12 31 = daysInYear y := by
   unfold yearDay daysInYear; cases isLeap y <;> simp [cum]
 
 end Gedcom
+
+namespace Gedcom
+
+theorem yearsDen_cases (d : Date) : d.yearsDen = 732 ∨ d.yearsDen = 734 := by
+  unfold Date.yearsDen; rcases daysInYear_cases (d.year : Int) with e | e <;> rw [e] <;> simp
+
+/-- `Years()` comparisons are transitive (exact fractions, positive denominators) -/
+theorem yearsLt_trans {a b c : Date} (h1 : a.yearsLt b) (h2 : b.yearsLt c) : a.yearsLt c := by
+  unfold Date.yearsLt at *
+  rcases yearsDen_cases a with ea | ea <;> rcases yearsDen_cases b with eb | eb <;>
+    rcases yearsDen_cases c with ec | ec <;> rw [ea, eb] at h1 <;> rw [eb, ec] at h2 <;>
+    rw [ea, ec] <;> omega
+
+theorem yearsLt_irrefl (a : Date) : ¬ a.yearsLt a := by
+  unfold Date.yearsLt; omega
+
+/-- if nothing seen so far is below `m` and `d` is below `m`, nothing seen so far is below `d` -/
+theorem not_lt_of_lt {x d m : Date} (h : ¬ x.yearsLt m) (hd : d.yearsLt m) : ¬ x.yearsLt d :=
+  fun hx => h (yearsLt_trans hx hd)
+
+theorem minimum_go_spec (pre ds : List Date) (acc : Option (Nat × Date)) (k : Nat) (x : Date)
+    (hacc : match acc with
+      | none => pre = []
+      | some (j, m) => pre[j]? = some m ∧ ∀ d ∈ pre, ¬ d.yearsLt m)
+    (h : minimumIdx.go ds pre.length acc = some (k, x)) :
+    (pre ++ ds)[k]? = some x ∧ ∀ d ∈ pre ++ ds, ¬ d.yearsLt x := by
+  induction ds generalizing pre acc with
+  | nil =>
+    simp only [minimumIdx.go] at h
+    subst h
+    simpa using hacc
+  | cons d rest ih =>
+    cases acc with
+    | none =>
+      simp only at hacc; subst hacc
+      simp only [minimumIdx.go, List.length_nil] at h
+      have := ih [d] (some (0, d)) (by simp [yearsLt_irrefl]) (by simpa using h)
+      simpa using this
+    | some jm =>
+      obtain ⟨j, m⟩ := jm
+      simp only at hacc
+      simp only [minimumIdx.go] at h
+      have hlen : (pre ++ [d]).length = pre.length + 1 := by simp
+      by_cases hlt : d.yearsLt m
+      · simp only [hlt, if_true] at h
+        have := ih (pre ++ [d]) (some (pre.length, d)) (by
+          refine ⟨by simp, ?_⟩
+          intro y hy
+          simp only [List.mem_append, List.mem_singleton] at hy
+          rcases hy with hy | hy
+          · exact not_lt_of_lt (hacc.2 y hy) hlt
+          · subst hy; exact yearsLt_irrefl _) (by rw [hlen]; exact h)
+        simpa using this
+      · simp only [hlt, if_false] at h
+        have := ih (pre ++ [d]) (some (j, m)) (by
+          refine ⟨?_, ?_⟩
+          · have hj : j < pre.length := by
+              have := hacc.1
+              exact (List.getElem?_eq_some_iff.mp this).1
+            rw [List.getElem?_append_left hj]; exact hacc.1
+          · intro y hy
+            simp only [List.mem_append, List.mem_singleton] at hy
+            rcases hy with hy | hy
+            · exact hacc.2 y hy
+            · subst hy; exact hlt) (by rw [hlen]; exact h)
+        simpa using this
+
+theorem maximum_go_spec (pre ds : List Date) (acc : Option (Nat × Date)) (k : Nat) (x : Date)
+    (hacc : match acc with
+      | none => pre = []
+      | some (j, m) => pre[j]? = some m ∧ ∀ d ∈ pre, ¬ m.yearsLt d)
+    (h : maximumIdx.go ds pre.length acc = some (k, x)) :
+    (pre ++ ds)[k]? = some x ∧ ∀ d ∈ pre ++ ds, ¬ x.yearsLt d := by
+  induction ds generalizing pre acc with
+  | nil =>
+    simp only [maximumIdx.go] at h
+    subst h
+    simpa using hacc
+  | cons d rest ih =>
+    cases acc with
+    | none =>
+      simp only at hacc; subst hacc
+      simp only [maximumIdx.go, List.length_nil] at h
+      have := ih [d] (some (0, d)) (by simp [yearsLt_irrefl]) (by simpa using h)
+      simpa using this
+    | some jm =>
+      obtain ⟨j, m⟩ := jm
+      simp only at hacc
+      simp only [maximumIdx.go] at h
+      have hlen : (pre ++ [d]).length = pre.length + 1 := by simp
+      by_cases hlt : m.yearsLt d
+      · simp only [hlt, if_true] at h
+        have := ih (pre ++ [d]) (some (pre.length, d)) (by
+          refine ⟨by simp, ?_⟩
+          intro y hy
+          simp only [List.mem_append, List.mem_singleton] at hy
+          rcases hy with hy | hy
+          · exact fun hdy => hacc.2 y hy (yearsLt_trans hlt hdy)
+          · subst hy; exact yearsLt_irrefl _) (by rw [hlen]; exact h)
+        simpa using this
+      · simp only [hlt, if_false] at h
+        have := ih (pre ++ [d]) (some (j, m)) (by
+          refine ⟨?_, ?_⟩
+          · have hj : j < pre.length := (List.getElem?_eq_some_iff.mp hacc.1).1
+            rw [List.getElem?_append_left hj]; exact hacc.1
+          · intro y hy
+            simp only [List.mem_append, List.mem_singleton] at hy
+            rcases hy with hy | hy
+            · exact hacc.2 y hy
+            · subst hy; exact hlt) (by rw [hlen]; exact h)
+        simpa using this
+
+end Gedcom
